@@ -61,7 +61,12 @@ func (w *World) Battery(db walletdb.DB, m *waddrmgr.Manager) map[string]string {
 				for br, f := range []func(walletdb.ReadBucket, uint32) (waddrmgr.ManagedAddress, error){sm.LastExternalAddress, sm.LastInternalAddress} {
 					la, err := f(ns, a.Num)
 					if err == nil {
-						out[fmt.Sprintf("%s:last%d", key, br)] = la.Address().String()
+						d := la.Address().String() + fmt.Sprintf(" acct=%d int=%v imp=%v type=%v", la.InternalAccount(), la.Internal(), la.Imported(), la.AddrType())
+						if pk, ok := la.(waddrmgr.ManagedPubKeyAddress); ok {
+							sc, dp, okd := pk.DerivationInfo()
+							d += fmt.Sprintf(" pub=%x der=%v/%d/%d/%d/%d/%d/%v", pk.PubKey().SerializeCompressed(), sc, dp.InternalAccount, dp.Account, dp.Branch, dp.Index, dp.MasterKeyFingerprint, okd)
+						}
+						out[fmt.Sprintf("%s:last%d", key, br)] = d
 					} else {
 						out[fmt.Sprintf("%s:last%d", key, br)] = "ERR " + errCode(err)
 					}
